@@ -30,7 +30,13 @@ func init() {
 		}
 		defer os.RemoveAll(root)
 		src, dst, out := filepath.Join(root, "S"), filepath.Join(root, "D"), filepath.Join(root, "outside")
-		for _, d := range []string{src, dst, out, filepath.Join(src, "sub")} {
+		dst2 := filepath.Join(root, "D2")
+		// "copy+remove", "move+remove", "copy+move", ...: a second operation through the SAME handle, into D2
+		op2 := ""
+		if k := strings.Index(op, "+"); k >= 0 {
+			op, op2 = op[:k], op[k+1:]
+		}
+		for _, d := range []string{src, dst, dst2, out, filepath.Join(src, "sub")} {
 			os.MkdirAll(d, 0755)
 		}
 		ioutil.WriteFile(filepath.Join(out, "canary"), []byte("canary"), 0644)
@@ -72,6 +78,7 @@ func init() {
 		ctlpath := filepath.Join(src, ctlname)
 		ioutil.WriteFile(ctlpath, []byte(text), 0644)
 		var doOp func() error
+		var doOp2 func() error
 		var filename func() string
 		if kind == "dsc" {
 			d, err := control.ParseDscFile(ctlpath)
@@ -87,6 +94,14 @@ func init() {
 			default:
 				doOp = func() error { return d.Remove() }
 			}
+			switch op2 {
+			case "copy":
+				doOp2 = func() error { return d.Copy(dst2) }
+			case "move":
+				doOp2 = func() error { return d.Move(dst2) }
+			case "remove":
+				doOp2 = func() error { return d.Remove() }
+			}
 		} else {
 			c, err := control.ParseChangesFile(ctlpath)
 			if err != nil {
@@ -100,6 +115,14 @@ func init() {
 				doOp = func() error { return c.Move(dst) }
 			default:
 				doOp = func() error { return c.Remove() }
+			}
+			switch op2 {
+			case "copy":
+				doOp2 = func() error { return c.Copy(dst2) }
+			case "move":
+				doOp2 = func() error { return c.Move(dst2) }
+			case "remove":
+				doOp2 = func() error { return c.Remove() }
 			}
 		}
 		// the state of the control file itself, applied after parsing
@@ -126,9 +149,16 @@ func init() {
 		mask := uint32(syscall.IN_CREATE | syscall.IN_MOVED_TO | syscall.IN_MOVED_FROM | syscall.IN_DELETE | syscall.IN_CLOSE_WRITE)
 		wS, _ := syscall.InotifyAddWatch(fd, src, mask)
 		wD, _ := syscall.InotifyAddWatch(fd, dst, mask)
+		wD2, _ := syscall.InotifyAddWatch(fd, dst2, mask)
 		res := "ok"
 		if e := doOp(); e != nil {
 			res = "err"
+		} else if doOp2 != nil {
+			if e := doOp2(); e != nil {
+				res = "ok+err"
+			} else {
+				res = "ok+ok"
+			}
 		}
 		fn := strings.TrimPrefix(filename(), root+"/")
 		// drain the events
@@ -146,6 +176,8 @@ func init() {
 				dir := "S"
 				if int(ev.Wd) == wD {
 					dir = "D"
+				} else if int(ev.Wd) == wD2 {
+					dir = "D2"
 				} else if int(ev.Wd) != wS {
 					dir = "?"
 				}
@@ -170,7 +202,7 @@ func init() {
 		}
 		// final state
 		entries := []string{}
-		for _, d := range [][2]string{{"S", src}, {"D", dst}, {"outside", out}, {"root", root}} {
+		for _, d := range [][2]string{{"S", src}, {"D", dst}, {"D2", dst2}, {"outside", out}, {"root", root}} {
 			fis, _ := ioutil.ReadDir(d[1])
 			for _, fi := range fis {
 				if d[0] == "root" && fi.IsDir() {
